@@ -92,7 +92,12 @@ mod contracts {
 }
 use contracts::{Target, TL};
 
-const MAX_TTL: u32 = 200_000;
+/// max_entry_ttl of the host (about one year of ledgers): persistent / instance entries of the
+/// unmodified code stay live across the long idle gaps (min_persistent_entry_ttl = this - 1).
+const MAX_TTL: u32 = 6_312_000;
+/// near the end of the u32 range `sequence + ttl` must not overflow: a short horizon there
+const SHORT_TTL: u32 = 200_000;
+const DAY: u32 = 17_280;
 /// TIMELOCK_EXTEND_AMOUNT: beyond u32::MAX - this the host refuses `extend_ttl` (u32 overflow of
 /// `sequence + extend_to`), i.e. every read of an existing operation entry fails.
 const EXTEND: u32 = 518_400;
@@ -132,6 +137,7 @@ struct Sim {
     defs: Vec<OpDef>,
     hashes: Vec<BytesN<32>>,
     now: u32,
+    ttl: u32,
 }
 
 fn lit(e: &Env, n: u32) -> BytesN<32> {
@@ -142,12 +148,13 @@ fn lit(e: &Env, n: u32) -> BytesN<32> {
 
 impl Sim {
     fn new(start: u32) -> Sim {
-        let e = new_env(start, 16, MAX_TTL);
+        let ttl = if start > u32::MAX / 2 { SHORT_TTL } else { MAX_TTL };
+        let e = new_env(start, 16, ttl);
         let tlc = e.register(TL, ());
         let t0 = e.register(Target, ());
         let t1 = e.register(Target, ());
         let u = Universe::new(&e, 1);
-        Sim { e, tlc, targets: vec![t0, t1, u.a(0).clone()], defs: vec![], hashes: vec![], now: start }
+        Sim { e, tlc, targets: vec![t0, t1, u.a(0).clone()], defs: vec![], hashes: vec![], now: start, ttl }
     }
     fn id(&self, r: &IdRef) -> BytesN<32> {
         match r {
@@ -263,7 +270,7 @@ impl Sim {
             return;
         }
         self.now += n;
-        set_ledger(&self.e, self.now, 16, MAX_TTL);
+        set_ledger(&self.e, self.now, 16, self.ttl);
         self.obs(t, true, "");
     }
     /// ledger value of operation k as stored (0 unset, 1 done, else ready ledger)
@@ -378,6 +385,8 @@ fn directed(t: &mut Trace) {
     s.exec(t, f, false);
     s.exec(t, f, true);
 
+    long_idle_directed(t);
+
     t.seq(&format!("directed saturating ready ledger start={}", HORIZON - 100));
     let mut s = Sim::new(HORIZON - 100);
     let a = s.def(t, od(0, 0, &[1], Zero, 0));
@@ -401,6 +410,55 @@ fn directed(t: &mut Trace) {
     s.sched(t, a, u32::MAX);
 }
 
+/// Long idle gaps: nothing is touched (no getter, no call) while the ledger moves by 1, 31 and 100
+/// days; whatever was stored must still be there (Done for ever, Waiting until its delay has
+/// elapsed and then Ready and executable exactly once, the minimum delay unchanged).
+fn long_idle_directed(t: &mut Trace) {
+    use IdRef::*;
+    t.seq("directed long idle gaps of 1, 31 and 100 days start=1000");
+    let mut s = Sim::new(1000);
+    let a = s.def(t, od(0, 0, &[1], Zero, 0)); // executed before the gaps
+    let b = s.def(t, od(0, 0, &[2], Zero, 0)); // cancelled before the gaps
+    let c = s.def(t, od(0, 1, &[3], Zero, 0)); // 40 days of delay: Waiting across the first gaps
+    let d = s.def(t, od(1, 0, &[4], Zero, 0)); // Ready, left alone
+    let f = s.def(t, od(1, 1, &[5], Op(a), 0)); // needs a (Done)
+    let g = s.def(t, od(1, 1, &[6], Zero, 0)); // marked done without a target call
+    let u = s.def(t, od(1, 1, &[7], Zero, 0)); // never scheduled
+    s.min(t, 10);
+    for k in [a, b, d, f, g] {
+        s.sched(t, k, 10);
+    }
+    s.sched(t, c, 40 * DAY);
+    s.advance(t, 10);
+    s.exec(t, a, true);
+    s.exec(t, g, false);
+    s.cancel(t, &Op(b));
+    for gap in [DAY, 31 * DAY, 100 * DAY] {
+        s.advance(t, gap); // nothing touched in between
+        // Done is for ever
+        s.exec(t, a, true);
+        s.exec(t, g, false);
+        s.cancel(t, &Op(a));
+        s.sched(t, a, 10);
+        s.sched(t, g, 40 * DAY);
+        // Waiting until the 40 days are over, then executable exactly once
+        s.exec(t, c, true);
+        s.exec(t, c, true);
+        s.exec(t, u, true);
+    }
+    s.exec(t, d, true); // Ready since 132 days
+    s.exec(t, d, true);
+    s.exec(t, f, true); // its predecessor was executed 132 days ago
+    s.sched(t, b, 9); // the minimum delay is still 10
+    s.sched(t, b, 10); // a cancelled operation may come back
+    s.sched(t, u, 40 * DAY);
+    s.advance(t, 40 * DAY - 1);
+    s.exec(t, u, true);
+    s.advance(t, 1);
+    s.exec(t, u, true);
+    s.cancel(t, &Op(u));
+}
+
 /// not part of the trace: beyond HORIZON the host refuses `extend_ttl` (u32 overflow), so every
 /// call that reads an existing operation entry fails. Checked here so that the claim in the
 /// notes stays true.
@@ -409,14 +467,17 @@ fn beyond_horizon_selfcheck(t: &mut Trace) {
     let mut s = Sim::new(HORIZON - 1);
     let a = s.def(&mut quiet, od(0, 0, &[1], IdRef::Zero, 0));
     s.min(&mut quiet, 0);
-    assert!(s.sched(&mut quiet, a, 0));
+    if !s.sched(&mut quiet, a, 0) {
+        // the set-up itself does not work on this tree: nothing to learn here, the traced sequences decide
+        t.count("selfcheck:beyond_horizon_setup_failed");
+        return;
+    }
     s.now += 2;
-    set_ledger(&s.e, s.now, 16, MAX_TTL);
+    set_ledger(&s.e, s.now, 16, s.ttl);
     let a5 = s.op_args(&s.defs[a]);
     let r = call(&s.e, &s.tlc, "execute", args(&s.e, a5), &[]);
     let c = call(&s.e, &s.tlc, "cancel", args(&s.e, [s.hashes[a].clone().into_val(&s.e)]), &[]);
-    assert!(r.is_none() && c.is_none(), "reads of existing entries beyond the horizon were expected to fail");
-    t.count("selfcheck:beyond_horizon_rejects");
+    t.count(if r.is_none() && c.is_none() { "selfcheck:beyond_horizon_rejects" } else { "selfcheck:beyond_horizon_ACCEPTS" });
 }
 
 fn pick_delay(rng: &mut Rng, s: &Sim) -> u32 {
@@ -483,9 +544,11 @@ fn main() {
     directed(&mut t);
     beyond_horizon_selfcheck(&mut t);
     for kseq in 0..nseq {
-        let start = *rng.pick(&[2u32, 2, 3, 100, 5000, HORIZON - 300, HORIZON - 40]);
+        // one sequence in eight is a "long idle" one: delays of days, gaps of 1 / 31 / 100 days
+        let long = kseq % 8 == 5;
+        let start = if long { *rng.pick(&[2u32, 1000]) } else { *rng.pick(&[2u32, 2, 3, 100, 5000, HORIZON - 300, HORIZON - 40]) };
         let mut s = Sim::new(start);
-        t.seq(&format!("rand k={} seed={} start={}", kseq, seed, start));
+        t.seq(&format!("rand{} k={} seed={} start={}", if long { " long idle" } else { "" }, kseq, seed, start));
         gen_defs(&mut rng, &mut s, &mut t);
         if rng.chance(90) {
             let m = *rng.pick(&[0u32, 0, 1, 2, 5, 10, 1000]);
@@ -504,7 +567,7 @@ fn main() {
                 // schedule: mostly something unset
                 let unset: Vec<usize> = (0..n).filter(|&j| s.ledger_of(j) == 0).collect();
                 let k = if !unset.is_empty() && rng.chance(75) { *rng.pick(&unset) } else { k };
-                let d = pick_delay(&mut rng, &s);
+                let d = if long && rng.chance(35) { *rng.pick(&[DAY, 30 * DAY, 40 * DAY, 90 * DAY]) } else { pick_delay(&mut rng, &s) };
                 s.sched(&mut t, k, d);
             } else if r < 55 {
                 // execute: mostly something executable (ready, predecessor zero or done), sometimes
@@ -547,14 +610,15 @@ fn main() {
                 s.min(&mut t, m);
             } else {
                 // move the ledger: to just before / exactly at / after a ready ledger
-                let waiting: Vec<u32> = (0..n).map(|j| s.ledger_of(j)).filter(|&l| l > s.now && (l - s.now) < 3000).collect();
+                let waiting: Vec<u32> = (0..n).map(|j| s.ledger_of(j)).filter(|&l| l > s.now && (l - s.now) < (if long { 4_000_000 } else { 3000 })).collect();
                 let nn = if !waiting.is_empty() && rng.chance(70) {
                     let l = *rng.pick(&waiting);
                     (l - s.now + rng.below(3) as u32).saturating_sub(1)
                 } else {
                     *rng.pick(&[0u32, 1, 1, 2, 5, 10, 999])
                 };
-                if moved + (nn as u64) < 150_000 {
+                let nn = if long && rng.chance(45) { *rng.pick(&[DAY, 31 * DAY, 100 * DAY]) } else { nn };
+                if moved + (nn as u64) < (if long { 5_500_000 } else { 150_000 }) {
                     moved += nn as u64;
                     s.advance(&mut t, nn);
                 }
